@@ -245,6 +245,33 @@ def check_server(prod, version, banner, kind, mk, st):
         st.sample(dict(detail, recommendations=len(recs)))
 
 
+# ---- recognised products the database dates nothing for (TinySSH, PuTTY, LANcom ...): the identified version cannot decide anything, so a
+# peer announcing the product without a release string gets the removal / change recommendations of the same peer announcing one
+UNDATED = [(b'SSH-2.0-tinyssh_', b'SSH-2.0-tinyssh_20190101'), (b'SSH-2.0-lancom', b'SSH-2.0-lancom1.2'), (b'SSH-2.0-PuTTY_Release_', b'SSH-2.0-PuTTY_Release_0.80'),
+           (b'SSH-2.0-tinyssh_noversion', b'SSH-2.0-tinyssh_20240101')]
+
+
+def work_undated(chunk, st):
+    for (bare, versioned), kind, role in chunk:
+        docs = []
+        for b in (bare, versioned):
+            if role == 'server':
+                res = H.audit(make_server(kind, b), opts=['-n', '--skip-rate-test', '-j'])
+            else:
+                l = peer_lists(kind)
+                res = H.client_audit(P.Client(kex=l['kex'], key=l['key'], enc=l['enc'], mac=l['mac'], banner=b), opts=['-n', '-j'])
+            st.execution(res.world, outcome=('undated', res.status), root=('undated', b, kind, role), nontrivial=('undated', b, kind, role))
+            try:
+                rec = json.loads(res.stdout).get('recommendations', {})
+            except ValueError:
+                rec = None
+            docs.append((res.status, None if rec is None else sorted((lv, a, c, x['name']) for lv, acts in rec.items() for a, cats in acts.items() if a != 'add' for c, lst in cats.items() for x in lst)))
+        if docs[0] != docs[1]:
+            st.violation('undated-product:removals-depend-on-a-release-string', {'bare': bare.decode(), 'with_release': versioned.decode(), 'peer': kind, 'role': role,
+                                                                                  'bare_removals': len(docs[0][1] or []), 'with_release_removals': len(docs[1][1] or []), 'statuses': [docs[0][0], docs[1][0]]})
+    st.sample({'undated_pair': [chunk[0][0][0].decode(), chunk[0][0][1].decode()]}, cap=2)
+
+
 def work(chunk, st):
     for (prod, version, banner), kind in chunk:
         check(prod, version, banner, kind, st)
@@ -377,6 +404,7 @@ def run(tier, seed):
     hist = list(itertools.permutations(HISTORY_KINDS, 2)) + (list(itertools.permutations(HISTORY_KINDS, 3)) if tier != 'quick' else
                                                               [('exposed', 'terrapin-hardened', 'exposed'), ('smallrsa', 'clean', 'smallrsa'), ('gex2048', 'clean', 'gex2048')])
     par.pmap(work_history, hist, stats=st, chunk=2)
+    par.pmap(work_undated, [(pr, k, r) for pr in UNDATED for k in ('all', 'even', 'odd', 'clean') for r in ('server', 'client')], stats=st, chunk=2)
     from props import zoo
     par.pmap(work_zoo, [n for n in zoo.names(tier) if not n.startswith('c13:')], stats=st, chunk=4)
     from props import faultinv as _FI
